@@ -35,6 +35,13 @@ theorem finish_inv (cfg : Cfg) (f : Fn) (S : List Fr) (o : Out) (hs : safeFn cfg
       have hc : cfg.fixCpdef = true := by simpa [safeFn, hfk, Out.isExc] using hs
       simp only [hc, if_true]; exact hclose _ (by simp)
     all_goals exact hclose _ (by simp)
+  | stop =>
+    rw [post_ne_ret _ _ _ _ (by simp)]
+    cases hfk : f.fk <;> simp only [finish, hfk]
+    case cpdefPy =>
+      have hc : cfg.fixCpdef = true := by simpa [safeFn, hfk, Out.isExc] using hs
+      simp only [hc, if_true]; exact hclose _ (by simp)
+    all_goals exact hclose _ (by simp)
   | norm => rw [post_ne_ret _ _ _ _ (by simp)]; simp only [finish, hw, List.append_nil]; exact hclose _ (by simp)
   | brk => rw [post_ne_ret _ _ _ _ (by simp)]; simp only [finish, hw, List.append_nil]; exact hclose _ (by simp)
   | cont => rw [post_ne_ret _ _ _ _ (by simp)]; simp only [finish, hw, List.append_nil]; exact hclose _ (by simp)
@@ -58,6 +65,10 @@ theorem exec_inv (cfg : Cfg) : ∀ (s : Stmt) (c : Fn) (stk : List Fr),
     simp only [inRange] at hr
     simp only [exec]; rw [post_ne_ret _ _ _ _ (by simp)]; exact go_line_only cfg c stk ln hr
   | cont ln =>
+    intro c stk hr _ _
+    simp only [inRange] at hr
+    simp only [exec]; rw [post_ne_ret _ _ _ _ (by simp)]; exact go_line_only cfg c stk ln hr
+  | stopNoExc ln =>
     intro c stk hr _ _
     simp only [inRange] at hr
     simp only [exec]; rw [post_ne_ret _ _ _ _ (by simp)]; exact go_line_only cfg c stk ln hr
